@@ -502,6 +502,7 @@ pub fn check_c09(seed: u64, i: usize) -> DefReport {
         2 => gen::f11_literal(&mut rng, &name),
         3 => gen::f5_look(&mut rng, &name),
         4 => gen::f4_bytes(&mut rng, &name),
+        _ if (i / 6) % 2 == 1 => gen::f1x_exotic(&mut rng, &name),
         _ => gen::f1_soup(&mut rng, &name),
     };
     // default priorities on half of the patterns, explicit on the rest
